@@ -24,7 +24,7 @@ var deepKinds = []string{"withmsg", "wrap", "stack", "hint", "detail", "domain",
 // "deep", "wide", "deep-branch", "keys", "long").
 func (g *Cfg) Extreme(t *rapid.T, classes ...string) *Spec {
 	if len(classes) == 0 {
-		classes = []string{"deep", "deep", "wide", "deep-branch", "keys", "long"}
+		classes = []string{"deep", "deep", "wide", "deep-branch", "keys", "long", "deep-markref"}
 	}
 	b := 3
 	base := g.draw(t, &b, 1)
@@ -83,6 +83,14 @@ func (g *Cfg) Extreme(t *rapid.T, classes ...string) *Spec {
 		}
 		s.X[rapid.IntRange(0, len(s.X)-1).Draw(t, "deeppos")] = stackOf(base, rapid.SampledFrom(ks).Draw(t, "deepkind"), rapid.SampledFrom([]int{17, 20, 33, 40}).Draw(t, "depth"))
 		return s
+	case "deep-markref":
+		// Mark with a reference that is a much deeper chain than the
+		// marked error itself.
+		ref := stackOf(g.LeafOf(t, "goerr"), rapid.SampledFrom(ks).Draw(t, "deepkind"), rapid.SampledFrom([]int{17, 20, 33}).Draw(t, "depth"))
+		if !in("mark", g.Wraps) {
+			return ref
+		}
+		return &Spec{K: "wrap", S: []string{g.Str(t, "msg")}, C: &Spec{K: "mark", C: base, X: []*Spec{ref}}}
 	case "keys":
 		w := g.WrapOf(t, "telemetry", base)
 		w.S = nil
